@@ -163,7 +163,44 @@ def generate(rng, tier):
     cases = [_gen_valid(rng, tier) for _ in range(n)]
     cases += [_gen_malformed(rng) for _ in range(n // 8)]
     cases += _small_scope(rng, tier)
+    # the >= 1000-state sparse branch of eq_probs goes through ARPACK instead of LAPACK: one (two) big chains
+    for _ in range(1 if tier == "quick" else 2):
+        cases.append({"kind": "big", "n": rng.choice([1000, 1003]), "seed": rng.randrange(10 ** 6),
+                      "builder": "normalize", "fmt": rng.choice(["csr_matrix", "coo_matrix"])})
+        cases.append({"kind": "big", "n": 1000, "seed": rng.randrange(10 ** 6), "ring": True,
+                      "builder": "normalize", "fmt": "csr_matrix"})
     return cases
+
+
+def _run_big(c):
+    import scipy.sparse as sp
+    from enspara.msm import builders
+    rs = np.random.RandomState(c["seed"])
+    n = c["n"]
+    rows, cols, vals = [], [], []
+    for i in range(n):
+        if c.get("ring"):                  # slowly mixing banded ring: eigenvalues crowd near 1 (hard for ARPACK)
+            nb = ((i, 5), ((i + 1) % n, 2), ((i - 1) % n, 1), ((i + 7) % n, 1))
+        else:                              # fast mixing: a few random long-range jumps per state
+            nb = [(i, 5), ((i + 1) % n, 2)] + [(int(rs.randint(n)), 1) for _ in range(4)]
+        for j, lo in nb:
+            rows.append(i); cols.append(j); vals.append(lo + rs.randint(0, 6))
+    C = sp.coo_matrix((np.array(vals, dtype=float), (rows, cols)), shape=(n, n)).tocsr()
+    out = {}
+    for kind, A in (("sparse", getattr(sp, c["fmt"])(C)), ("dense", C.toarray())):
+        try:
+            _, T, pi = getattr(builders, c["builder"])(A, calculate_eq_probs=True)
+            T = T.toarray() if sp.issparse(T) else np.asarray(T)
+            pi = np.asarray(pi, dtype=float).ravel()
+            out[kind] = {"resid": float(np.abs(pi @ T - pi).max()), "sum": float(pi.sum()), "min": float(pi.min()),
+                         "rowsum": float(np.abs(T.sum(axis=1) - 1).max()), "pi": pi}
+        except Exception as ex:
+            out[kind] = {"err": type(ex).__name__}
+    if "pi" in out["sparse"] and "pi" in out["dense"]:
+        out["agree"] = float(np.abs(out["sparse"]["pi"] - out["dense"]["pi"]).max())
+    for k in ("sparse", "dense"):
+        out[k].pop("pi", None)
+    return out
 
 
 # ----------------------------------------------------------------------------- running the real code
@@ -236,6 +273,8 @@ def _call(builder, kind, A, prior, eq):
 
 
 def run_impl(c):
+    if c.get("kind") == "big":
+        return _run_big(c)
     A = _np_matrix(c["C"])
     res = {"by_kind": {}}
     for k in KINDS:
@@ -333,7 +372,25 @@ def _check_one(c, kind, r, eff, out):
         out.append(("input-mutated", tag + "the caller's matrix (or prior) was changed"))
 
 
+def _oracle_big(c, r):
+    out = []
+    for k in ("sparse", "dense"):
+        x = r[k]
+        if "err" in x:
+            out.append(("big-no-value", "%s %s on %d states raised %s" % (c["builder"], k, c["n"], x["err"])))
+            continue
+        if x["resid"] > 1e-8 or abs(x["sum"] - 1) > 1e-8 or x["min"] < -1e-12:
+            out.append(("stationary", "%s %s, %d states: |pi T - pi| = %.2e, sum %.6f, min %.2e" % (c["builder"], k, c["n"], x["resid"], x["sum"], x["min"])))
+        if x["rowsum"] > 1e-9:
+            out.append(("stochastic", "%s %s: row sums off by %.2e" % (c["builder"], k, x["rowsum"])))
+    if r.get("agree", 0) > 1e-8:
+        out.append(("kinds-agree", "sparse and dense populations differ by %.2e on %d states" % (r["agree"], c["n"])))
+    return out
+
+
 def oracle(c, r):
+    if c.get("kind") == "big":
+        return _oracle_big(c, r)
     out = []
     if "by_kind" not in r:
         return [("harness", "run_impl failed: %s %s" % (r.get("err"), r.get("msg")))]
@@ -407,6 +464,8 @@ def _expected(rk):
 
 
 def coq_check(c, r):
+    if c.get("kind") == "big":
+        return None       # 1000-state chains are outside what the exact Coq solve evaluates; oracle only
     if "by_kind" not in r:
         return None
     bk = r["by_kind"]
@@ -415,6 +474,8 @@ def coq_check(c, r):
 
 
 def coq_show(c):
+    if c.get("kind") == "big":
+        return "tt"
     if c["builder"] == "mle":
         try:
             r = run_impl(c)
@@ -425,6 +486,8 @@ def coq_show(c):
 
 
 def nontrivial(c, r):
+    if c.get("kind") == "big":
+        return True
     if c["expect_err"] or "by_kind" not in r or "err" in r["by_kind"]["ndarray"]:
         return False
     M = _mat(c["C"])
@@ -434,6 +497,8 @@ def nontrivial(c, r):
 
 
 def tags(c, r):
+    if c.get("kind") == "big":
+        return ["arpack-1000-states"]
     t = ["builder:" + c["builder"], "class:" + c["cls"], "eq-on" if c["eq"] else "eq-off", "cmp-kind:" + c["kind"],
          "prior:" + ("none" if c["prior"] is None else "scalar" if "scalar" in c["prior"] else "matrix"),
          "n=%d" % len(c["C"])]
@@ -450,7 +515,7 @@ def tags(c, r):
     return t
 
 
-ESSENTIAL_TAGS = ["builder:normalize", "builder:transpose", "builder:mle", "class:sc", "class:rows", "class:zero-row",
+ESSENTIAL_TAGS = ["arpack-1000-states", "builder:normalize", "builder:transpose", "builder:mle", "class:sc", "class:rows", "class:zero-row",
                   "eq-on", "eq-off", "prior:none", "prior:scalar", "prior:matrix", "error-expected", "impl-rejects",
                   "class:mle-no-outgoing", "class:prior-shape", "class:nonsquare", "prior-densified-sparse"] + \
                  ["cmp-kind:" + k for k in SPARSE]
